@@ -119,7 +119,7 @@ func (g *c48Gen) growIndex(dupHeavy bool) {
 }
 
 func streamC48(h *H) {
-	n := h.N(300, 20000)
+	n := h.N(300, 16000)
 	for i := 0; i < n; i++ {
 		c48Case(h)
 	}
